@@ -212,3 +212,28 @@ package linkedhashmap
 //@     invariant ItInv(iterator) && iterator.iterator.list == m.ordering && iterator.table == m.table && fresh(iterator)
 //@     invariant forall j :: 0 <= j && j <= iterator.iterator.index && j < N(m) ==> !f(K(m)[j], Val(m, K(m)[j]))
 //@     decreases N(m) - iterator.iterator.index
+
+// ---- Select / Map (C14) ----
+
+//@ func Map.Select
+//@   requires Inv(m) && f != nil
+//@   modifies nothing
+//@   ensures [C14 C16 C17 C18] fresh(result) && Inv(result) && fresh(result.table) && fresh(result.ordering)
+//@   ensures [C14] entries: forall k like keyof(m.table) :: (Has(result, k) <==> Has(m, k) && f(k, Val(m, k))) && (Has(result, k) ==> Val(result, k) == Val(m, k))
+//@   ensures [C14] order: forall a, b :: 0 <= a && a < b && b < N(result) ==> m.rank[K(result)[a]] < m.rank[K(result)[b]]
+//@   loop 1:
+//@     invariant ItInv(iterator) && iterator.iterator.list == m.ordering && iterator.table == m.table && fresh(iterator) && fresh(newMap) && Inv(newMap) && fresh(newMap.table) && fresh(newMap.ordering) && newMap != m
+//@     invariant forall k like keyof(m.table) :: (Has(newMap, k) <==> Has(m, k) && m.rank[k] <= iterator.iterator.index && f(k, Val(m, k))) && (Has(newMap, k) ==> Val(newMap, k) == Val(m, k))
+//@     invariant forall a, b :: 0 <= a && a < b && b < N(newMap) ==> m.rank[K(newMap)[a]] < m.rank[K(newMap)[b]]
+//@     invariant forall a :: 0 <= a && a < N(newMap) ==> Has(newMap, K(newMap)[a])
+//@     decreases N(m) - iterator.iterator.index
+
+//@ func Map.Map
+//@   requires Inv(m) && f != nil
+//@   modifies nothing
+//@   ensures [C14 C16 C17 C18] fresh(result) && Inv(result) && fresh(result.table) && fresh(result.ordering) && N(result) <= N(m)
+//@   ensures [C14] all: forall j :: 0 <= j && j < N(m) ==> Has(result, fst(f(K(m)[j], Val(m, K(m)[j]))))
+//@   loop 1:
+//@     invariant ItInv(iterator) && iterator.iterator.list == m.ordering && iterator.table == m.table && fresh(iterator) && fresh(newMap) && Inv(newMap) && fresh(newMap.table) && fresh(newMap.ordering) && newMap != m && N(newMap) <= min(iterator.iterator.index + 1, N(m))
+//@     invariant forall j :: 0 <= j && j <= iterator.iterator.index && j < N(m) ==> Has(newMap, fst(f(K(m)[j], Val(m, K(m)[j]))))
+//@     decreases N(m) - iterator.iterator.index
